@@ -115,6 +115,25 @@ pub fn valmap(case: &J) -> R<J> {
         if WitnessValues::parse_from_str(&dup_mod).is_ok() {
             problems.push(format!("module assigning `{n}` twice is accepted"));
         }
+        // the second assignment at every distance from the first one: in front of and behind all assignments, for every name
+        for e in entries.iter() {
+            let v = typed_val_from_json(e)?;
+            let n = e["n"].as_str().unwrap_or("A");
+            let line = format!("    const {n}: {} = {v};\n", v.ty());
+            let front = text.replacen("{\n", &format!("{{\n{line}"), 1);
+            let back = match text.rfind('}') {
+                Some(k) => format!("{}{}{}", &text[..k], line, &text[k..]),
+                None => continue,
+            };
+            for (place, t) in [("in front", front), ("at the end", back)] {
+                if WitnessValues::parse_from_str(&t).is_ok() {
+                    problems.push(format!("module assigning `{n}` a second time {place} is accepted"));
+                }
+                if Arguments::parse_from_str(&t.replacen("mod witness", "mod param", 1)).is_ok() {
+                    problems.push(format!("argument module assigning `{n}` a second time {place} is accepted"));
+                }
+            }
+        }
         let entry = format!("\"{n}\": {{\"value\": \"{v}\", \"type\": \"{}\"}}", v.ty());
         let dup_js = format!("{{{entry}, {entry}}}");
         if serde_json::from_str::<WitnessValues>(&dup_js).is_ok() {
